@@ -3,6 +3,7 @@ import MpcVerif.Model.Iknp
 import MpcVerif.Model.Clmul
 import MpcVerif.Model.Kos
 import MpcVerif.Model.KosSet
+import MpcVerif.Model.KosBuf
 
 /-!
 Line-protocol handler of property C15.
@@ -33,6 +34,15 @@ Line-protocol handler of property C15.
         -> `chi=<labels>/distinct=<bool>`.  The harness prints the coefficients
         it RECOVERED from the real receiver (`x` of `n + 256` probe calls with
         one choice bit set, `C15_kos_probe_recovers_chi`).
+  hist  <stape> <rtape> <arenaLabels> <n:choices:buf;...>
+        a HISTORY of honest malicious-mode calls on one pair (`Kos.sessionK` step
+        by step); every call names its result buffer: `-` = fresh slice, or
+        `<pre>@<off>+0` = `arena[off:off+n]` of the receiver's long-lived array
+        of `arenaLabels` labels, `<pre>` = `k` (as the earlier calls left it),
+        `f<2 hex>` (every byte this value) or `r<32 hex>` (AES-CTR stream of this
+        key).  Receiver tape: 256 base-OT labels, then b0, b1, seed2 per call.
+        -> per call `resp=<seed2 x t0 t1>/s=<sent>/r=<received>`, `A` = the model
+        aborts (and stops).
 -/
 namespace Drv.C15
 open Mpc Drv Mpc.Iknp Mpc.Clmul Mpc.Kos
@@ -300,6 +310,79 @@ def handleSess (stape rtape n choices faults : String) : String :=
         head ++ "/f=" ++ (if fr.isEmpty then "-" else ";".intercalate fr)
   | _, _, _, _ => "bad-op"
 
+/-! ### histories with named result buffers -/
+
+inductive Pre where
+  | keep
+  | fill (b : Nat)
+  | rand (key : ByteArray)
+
+/-- `-` | `<pre>@<off>+<extra>`: where the result slice of a call comes from. -/
+def parseBuf (al : Nat) (s : String) : Option (BufSrc Label) :=
+  if s == "-" then some .fresh else
+  match s.splitOn "@" with
+  | [pre, rest] =>
+    match rest.splitOn "+" with
+    | [off, extra] => do
+      let off ← off.toNat?
+      let extra ← extra.toNat?
+      let tag ← pre.toList.head?
+      let arg := (pre.drop 1).toString
+      let pre ← (if tag == 'k' then (if arg == "" then some Pre.keep else none)
+        else if tag == 'f' then (do
+          let b ← Aes.bytesOfHex arg
+          if b.size ≠ 1 then none else some (Pre.fill (b[0]!).toNat))
+        else if tag == 'r' then (do
+          let b ← Aes.bytesOfHex arg
+          if b.size ≠ 16 then none else some (Pre.rand b))
+        else none)
+      let bytes : Option ByteArray := match pre with
+        | .keep => none
+        | .fill b => some (ByteArray.mk (Array.replicate (16 * al) (UInt8.ofNat b)))
+        | .rand key => some (streamBA key 0 (16 * al))
+      some (.arena (bytes.map fun bs => mk al fun i => label128 bs (16 * i)) off extra)
+    | _ => none
+  | _ => none
+
+structure HCall where
+  n : Nat
+  b : Array Bool
+  buf : BufSrc Label
+
+def parseHCall (al : Nat) (s : String) : Option HCall :=
+  match s.splitOn ":" with
+  | [n, ch, buf] => do
+    let n ← n.toNat?
+    let b := (parseBits ch).toArray
+    if b.size ≠ n then none else some { n := n, b := b, buf := (← parseBuf al buf) }
+  | _ => none
+
+def runHist (p : Pair) (rtape : ByteArray) : RecvSt → SendSt → Array Label → Nat → List HCall → List String
+  | _, _, _, _, [] => []
+  | rs, ss, ar, rpos, c :: cs =>
+    if rtape.size < rpos + 48 then ["bad-tape"] else
+    let b0 := label128 rtape rpos
+    let b1 := label128 rtape (rpos + 16)
+    let seed2 := label128 rtape (rpos + 32)
+    let X := mkX [(seed2, chiTable seed2 (c.n + 256))]
+    match runKCall Store.assign X p.R0 p.R1 p.SS p.delta rs ss ar ⟨c.b, b0, b1, seed2, c.buf⟩ with
+    | none => ["A"]
+    | some (rs', ss', ar', r, sent) =>
+      s!"resp={labelsHex r.resp}/s={labelsHex sent}/r={labelsHex r.labels}" :: runHist p rtape rs' ss' ar' (rpos + 48) cs
+
+/-- `hist <stape> <rtape> <arenaLabels> <calls>` -/
+def handleHist (stape rtape al calls : String) : String :=
+  match Aes.bytesOfHex stape, Aes.bytesOfHex rtape, al.toNat? with
+  | some stape, some rtape, some al =>
+    match (calls.splitOn ";").mapM (parseHCall al) with
+    | none => "bad-op"
+    | some cs =>
+      let total := (cs.map fun c => colBytes c.n + 32).foldl (· + ·) 0
+      match mkPair stape rtape total with
+      | none => "error"
+      | some p => ";".intercalate (runHist p rtape RecvSt.init SendSt.init (zerosL al) (2 * K * 16) cs)
+  | _, _, _ => "bad-op"
+
 /-- `chi <seed2> <n>` -/
 def handleChi (seed n : String) : String :=
   match parseLabel seed, n.toNat? with
@@ -317,6 +400,7 @@ def handle (args : List String) : String :=
   | ["clmul", a, b] => handleClmul a b
   | ["inner", a, b] => handleInner a b
   | ["sess", stape, rtape, n, choices, faults] => handleSess stape rtape n choices faults
+  | ["hist", stape, rtape, al, calls] => handleHist stape rtape al calls
   | _ => "bad-op"
 
 end Drv.C15
